@@ -469,6 +469,31 @@ func (r *inst) wrap(s ast.Stmt, f facts) []ast.Stmt {
 	}
 	if f.lock {
 		pre = append(pre, r.yield(s, "lock"))
+		// a goroutine blocked in Mutex.Lock is invisible to synctest (not a durable block): under a scheduling simulator the
+		// statement first waits, parked, until the lock can be taken (probe with TryLock + Unlock, no pre-emption point between
+		// the probe and the real Lock), so that a lock that is never released shows as a deadlock of the simulation
+		if es, ok := s.(*ast.ExprStmt); ok {
+			if call, ok := es.X.(*ast.CallExpr); ok {
+				if sel, ok := call.Fun.(*ast.SelectorExpr); ok {
+					try, undo := "TryLock", "Unlock"
+					if r.syncMethod(call) == "RLock" {
+						try, undo = "TryRLock", "RUnlock"
+					}
+					if m := r.syncMethod(call); m == "Lock" || m == "RLock" {
+						probe := &ast.CallExpr{Fun: &ast.SelectorExpr{X: sel.X, Sel: ast.NewIdent(try)}}
+						release := &ast.ExprStmt{X: &ast.CallExpr{Fun: &ast.SelectorExpr{X: sel.X, Sel: ast.NewIdent(undo)}}}
+						loop := &ast.ForStmt{
+							Cond: r.hook("Scheduling"),
+							Body: &ast.BlockStmt{List: []ast.Stmt{
+								&ast.IfStmt{Cond: probe, Body: &ast.BlockStmt{List: []ast.Stmt{release, &ast.BranchStmt{Tok: token.BREAK}}}},
+								r.yield(s, "lockwait"),
+							}},
+						}
+						pre = append(pre, loop)
+					}
+				}
+			}
+		}
 		post = append(post, &ast.ExprStmt{X: r.hook("Locked", intLit(1))})
 	}
 	if f.unlock {
@@ -496,8 +521,9 @@ func isBlank(e ast.Expr) bool {
 }
 
 // for k, v := range m {B}
-//   =>  __m := m
-//       for _, k := range verifhook.MapKeys(__m) { v, __ok := __m[k]; if !__ok {continue}; B }
+//
+//	=>  __m := m
+//	    for _, k := range verifhook.MapKeys(__m) { v, __ok := __m[k]; if !__ok {continue}; B }
 func (r *inst) rewriteMapRange(x *ast.RangeStmt, m *types.Map) (pre []ast.Stmt, ok bool) {
 	if !basicOrdered(m.Key()) {
 		r.counts["maprange-skip-keytype"]++
